@@ -15,6 +15,7 @@ import multiprocessing
 import os
 
 import core
+import u4_util as U4
 import uwgutil as U
 from extract import reftables
 
@@ -330,6 +331,199 @@ def object_graph_ties(chk, sb, ss):
                'stepped): hourly records bit-identical', mismatches=sbad)
 
 
+# ------------------------------------------------------------------------------ circumstances (round 4)
+_TRUTH = {}
+
+
+def truth():
+    """Once per process, through routes that do not pass through any model: the shipped binary unpickled privately
+    (never handed to the package), the reader's output, the `Zone` header rows of the source tables. -> dict with
+    by_label: {(type, era, zone name of the table column): (canonical tree of the shipped cell, of the reader's cell)}"""
+    if _TRUTH:
+        return _TRUTH
+    import pickle
+    u = U.uwg_mod()
+    import uwg.readDOE as R
+    with open(u.UWG.REFDOE_PATH, 'rb') as f:
+        sb = pickle.load(f)
+        pickle.load(f)
+    with core.quiet():
+        rb, _rs = R.readDOE(serialize_output=False)
+    headers = reftables.table_zone_headers()
+
+    def strip(tree):
+        return {k: v for k, v in tree.items() if k not in ('frac', 'fl_area')}
+    by = {}
+    for i in range(16):
+        names = headers[(i + 1, 0)]
+        for j in range(3):
+            for k in range(16):
+                c = sb[i][j][k]
+                by[(c.bldtype, c.builtera, names[k])] = (strip(reftables.canon(c)), strip(reftables.canon(rb[i][j][k])),
+                                                         (i, j, k))
+    _TRUTH.update(by_label=by, strip=strip)
+    return _TRUTH
+
+
+def u4_after_generate(m, spec, sink, ctx):
+    """what generate() hands out for (type, era, zone): the shipped cell of the table column headed by that zone, equal
+    in every attribute to what the reader builds from that column"""
+    if ctx.get('judged'):
+        return                                  # (the second call comes after simulate-relevant state may have moved)
+    ctx['judged'] = True
+    t = truth()
+    zone = {'1B': '1A', '5C': '5B'}.get(m.zone, m.zone)
+    customs = {(d['bldtype'], d['builtera']) for d in spec['model'].get('ref_bem_vector') or []}
+    over = [a for a in ('glzr', 'albroof', 'vegroof', 'shgc', 'albwall', 'flr_h') if getattr(m, a) is not None]
+    for b in m.BEM:
+        if (b.bldtype, b.builtera) in customs or over or m.autosize:
+            continue
+        key = (b.bldtype, b.builtera, zone)
+        got = t['strip'](reftables.canon(b))
+        msg = None
+        if key not in t['by_label']:
+            msg = 'no cell of the shipped library lies in a table column headed %r for %s / %s' % (zone, key[0], key[1])
+        else:
+            ship, read, pos = t['by_label'][key]
+            d = first_difference(got, ship)
+            if d:
+                msg = 'zone %r: the archetype generate() hands out for %s / %s differs from the shipped cell %s of the ' \
+                      'table column headed %r at %s: %r vs %r' % (m.zone, key[0], key[1], list(pos), zone, d[0], d[1], d[2])
+            else:
+                d = first_difference(got, read)
+                if d:
+                    msg = 'zone %r: the archetype handed out for %s / %s (shipped cell %s) differs from what the reader ' \
+                          'builds from that table column at %s: shipped %r, reader %r' % (
+                              m.zone, key[0], key[1], list(pos), d[0], d[1], d[2])
+        sink('handed-out:%s' % zone, msg)
+        sink('wellformed', wellformed(b, m.Sch[m.BEM.index(b)]))
+
+
+def u4_final(m, spec, sink, ctx):
+    import math
+    recs = U.records(m)
+    msg = None
+    if any(r is None for r in recs):
+        msg = 'incomplete records'
+    elif not all(math.isfinite(float(x)) for r in recs for x in r):
+        msg = 'non-finite record'
+    sink('simulated', msg)
+
+
+U4_HOOKS = U4.Hooks(after_generate=u4_after_generate, final=u4_final)
+
+
+def library_digests():
+    """per-cell value digests of a fresh load_refDOE() and of a fresh readDOE() (sha256 of the pickled cell)"""
+    import hashlib
+    import t4_util as T
+    u = U.uwg_mod()
+    import uwg.readDOE as R
+    fb, fs = u.UWG.load_refDOE()
+    with core.quiet():
+        rb, rs = R.readDOE(serialize_output=False)
+
+    def dig(lib):
+        return {str(c): hashlib.sha256(v).hexdigest()[:16] for c, v in T.cell_digests(lib).items()}
+    return {'shipped BEMDef': dig(fb), 'shipped SchDef': dig(fs), 'reader BEMDef': dig(rb), 'reader SchDef': dig(rs)}, \
+        (fb, fs, rb, rs)
+
+
+CHILD_DIGESTS = """
+import json, u4_util
+from props import c19
+print(json.dumps(dict(c19.library_digests()[0], optimized=not __debug__)))
+"""
+
+
+def circumstance_ties(chk, quick):
+    import concurrent.futures
+    import generic as G
+    work = chk.work()
+    rng = chk.rng
+    par_t, epw_t = U4.toronto()
+    pool = concurrent.futures.ThreadPoolExecutor(max_workers=2)
+    kids = [(opt, pool.submit(G.child_json, CHILD_DIGESTS, optimize=opt)) for opt in (False, True)]
+    from uwg.utilities import REF_BLDTYPE, REF_BUILTERA
+    wood = [('quickservicerestaurant', 'pst80', 0.3), ('smalloffice', 'pre80', 0.2), ('warehouse', 'new', 0.2),
+            ('hospital', 'pst80', 0.3)]
+    rnd = [(REF_BLDTYPE[rng.randrange(16)], REF_BUILTERA[j], f) for j, f in zip(range(3), (0.5, 0.25, 0.25))]
+    scen = [U4.make_spec('zone 3B (Las Vegas column), wood-frame / steel-frame / metal / mass archetypes, singapore file',
+                         month=7, day=1, nday=1, dtsim=300, zone='3B', bld=wood),
+            U4.make_spec('zone 3B-CA (Los Angeles column), three eras, toronto file', epw=epw_t, param=par_t, month=1,
+                         day=10, nday=1, dtsim=300, zone='3B-CA', bld=rnd),
+            U4.make_spec('zone 1A, quickservicerestaurant pst80 (thin wood-frame insulation) + largeoffice', month=1, day=1,
+                         nday=1, dtsim=300, zone='1A', bld=[('quickservicerestaurant', 'pst80', 0.6), ('largeoffice', 'new', 0.4)])]
+    zones = [z for z in ZONES18 if z not in ('3B', '3B-CA', '1A')]
+    for z in (rng.sample(zones, 2) if quick else zones):
+        scen.append(U4.make_spec('zone %s, three random archetypes' % z, month=rng.choice([1, 7]), day=3, nday=1, dtsim=300,
+                                 zone=z, bld=[(REF_BLDTYPE[rng.randrange(16)], REF_BUILTERA[rng.randrange(3)], f)
+                                              for f in (0.4, 0.35, 0.25)]))
+    counts, nbad, _ = U4.live_battery(
+        chk, 'C19', U4_HOOKS, scen, U4.others_default(work), 'shipped library = reader output, as handed out and simulated',
+        full=1 if quick else 3, required=('handed-out', 'wellformed', 'simulated'))
+    # the library itself under the circumstances: fresh loads / fresh reader runs, digests per cell
+    plain, (fb, fs, rb, rs) = library_digests()
+    br, bad = {}, []
+
+    def compare(circ, got, names=None):
+        for name in names or plain:
+            br['%s:%s' % (circ, name)] = br.get('%s:%s' % (circ, name), 0) + 1
+            if got[name] != plain[name]:
+                cell = next(c for c in plain[name] if got[name].get(c) != plain[name][c])
+                bad.append(({'circumstance': circ, 'library': name, 'first differing cell (type, era, zone index)': cell},
+                            'the value digest of cell %s of the %s differs from the plain load / reader run' % (cell, name)))
+    # 1. somebody looks at every object of both libraries
+    objs = G.uwg_objects([fb, fs, rb, rs], limit=10 ** 6)
+    for o in objs:
+        U4.observe(o)
+    import hashlib
+    import t4_util as T
+    after = {n: {str(c): hashlib.sha256(v).hexdigest()[:16] for c, v in T.cell_digests(lib).items()}
+             for n, lib in (('shipped BEMDef', fb), ('shipped SchDef', fs), ('reader BEMDef', rb), ('reader SchDef', rs))}
+    compare('rendered (%d objects: repr / str / ToString)' % len(objs), after)
+    # 2. DEBUG logging while loading / reading; 5. after every model of the battery lived in this process
+    with U4.debug_on():
+        compare('DEBUG-logging, after the models of the battery lived in the process', library_digests()[0])
+    # 6. the caller edits what it was handed: the next load / reader run is unaffected
+    fb[3][1][0].building.coolcap = 12345.0
+    fb[8][1][0].wall.layer_thickness_lst.append(0.5)
+    fs[3][1][0].elec[0][0] = 99.0
+    rb[0][0][4].zonetype = 'edited'
+    rb[8][1][0].wall.material_lst[0].thermalcond = 99.0
+    rs[0][0][0].cool[1][1] = 5.0
+    compare("after the caller edited the objects an earlier load / reader run handed out", library_digests()[0])
+    # 3. fresh interpreters, plain and -O
+    for opt, fut in kids:
+        rc, got, err = fut.result()
+        if got is None:
+            raise core.Infra('child interpreter for the library digests failed (rc %s): %s' % (rc, err[-300:]))
+        if opt and not got.get('optimized'):
+            raise core.Infra('python -O child did not run optimised')
+        compare('fresh interpreter' + (' under python -O' if opt else ''), got)
+    pool.shutdown()
+    for case, msg in bad[:3]:
+        chk.violation('impl-violation', 'reference library under circumstances that are no input (fresh load / reader run)',
+                      case=case, observed=msg,
+                      expected='load_refDOE() and readDOE() give the same 768 + 768 cells whoever looked at earlier copies, '
+                               'whatever the logging level / interpreter mode is, whoever lived in the process before, '
+                               'whatever the caller did with earlier copies')
+    chk.direct('C19-circumstances(live runs + the library itself: observers, logging, -O, CLI, other models, caller data)',
+               sum(counts.values()) + sum(br.values()), len(scen) + len(br),
+               'oracle of the live runs = every archetype generate() hands out for (type, era, zone) is - attribute by '
+               'attribute, floats bit-exact, frac / fl_area aside - the shipped cell lying in the table column whose '
+               '`Zone` header (read from the csv tables, not from REF_ZONETYPE) names that zone, equals what the reader '
+               'builds from that column (both taken once per process through routes that pass through no model), is '
+               'well-formed, and simulates to complete finite records. Scenarios: zones 3B and 3B-CA (neighbouring '
+               'columns whose names sort the other way round), wood-frame / steel-frame / metal-building archetypes, '
+               'random zones (thorough: all 18): %s. %s. The library itself: per-cell value digests of a fresh '
+               'load_refDOE() and a fresh readDOE() after every object of earlier copies was rendered, under DEBUG '
+               'logging after all models of the battery lived in the process, after the caller edited earlier copies '
+               '(attribute, in-place list edits), in a fresh interpreter and under python -O - always equal to the plain '
+               'ones' % ('; '.join(s_['label'] for s_ in scen), U4.BATTERY_RULE),
+               mismatches=nbad + len(bad), branches=dict(counts, **br))
+
+
 def run(chk):
     # translator: regenerate the Lean table from the working tree, then re-check the theorems
     info, (sb, ss, rb, rs, srows, rrows) = reftables.generate()
@@ -429,6 +623,8 @@ def run(chk):
                'the 18 zone names (1B, 5C -> 1A, 5B), generate(): 48 archetypes selected, each equal in every '
                'attribute (canonical tree, floats bit-exact; frac / fl_area aside) to the pristine pickle cell '
                'that carries the requested type, era and zone labels', mismatches=select_bad)
+
+    circumstance_ties(chk, chk.tier == 'quick')
 
     # "can be simulated in hot and cold climates": executed, not proved
     if chk.tier == 'quick':
